@@ -94,21 +94,22 @@ type c14HandlerOut struct {
 	Dec    [][3]string            `json:"dec"`
 }
 
-func c14Handler(in c14HandlerIn) c14HandlerOut {
+// c14Handler1 runs the scripted handler once (through TracingHandler when traced).
+func c14Handler1(in c14HandlerIn, traced bool) tracer.VerifHandlerOut {
 	var pre []tracer.VerifHAction
 	for _, kv := range [][2]string{{"Content-Type", in.Resp.CT}, {"Content-Encoding", in.Resp.CE}, {"Connect-Content-Encoding", in.Resp.CCE}, {"Grpc-Encoding", in.Resp.GE}} {
 		if kv[1] != "" {
 			pre = append(pre, tracer.VerifHAction{Kind: "set", Key: kv[0], Val: kv[1]})
 		}
 	}
-	actions := append(pre, in.Actions...)
+	body, _ := in.Req.script()
+	return tracer.VerifServeHandler(traced, in.Req.headers(), body, append(pre, in.Actions...), in.Accept)
+}
+
+func c14Handler(in c14HandlerIn) c14HandlerOut {
 	var out c14HandlerOut
-	run := func(traced bool) tracer.VerifHandlerOut {
-		body, _ := in.Req.script()
-		return tracer.VerifServeHandler(traced, in.Req.headers(), body, actions, in.Accept)
-	}
-	out.Traced = run(true)
-	out.Plain = run(false)
+	out.Traced = c14Handler1(in, true)
+	out.Plain = c14Handler1(in, false)
 	var written []byte
 	for _, a := range in.Actions {
 		if a.Kind == "w" {
@@ -443,84 +444,8 @@ func runC14(c *gen.Ctx) error {
 		nMid = 40000
 	}
 	for i := 0; i < nMid; i++ {
-		// server side
-		var h c14HandlerIn
-		reqSide, reqBody := c14RandSide(c)
-		if r.Chance(1, 2) {
-			reqBody = reqBody[:r.Intn(len(reqBody)+1)]
-		}
-		h.Req = reqSide
-		h.Req.Reads = c14RandChunks(r, reqBody)
-		h.Req.Ending = gen.Pick(r, []string{"eof", "eof", "eofdata", "err", "errdata"})
-		h.Req.Post = []string{}
-		respSide, respBody := c14RandSide(c)
-		if r.Chance(1, 3) {
-			respBody = respBody[:r.Intn(len(respBody)+1)]
-		}
-		h.Resp = respSide
-		h.Resp.Reads, h.Resp.Post = []string{}, []string{}
-		writes := c14RandChunks(r, respBody)
-		nReads := len(h.Req.Reads) + 1
-		switch r.Intn(4) {
-		case 0:
-			nReads = r.Intn(nReads + 1) // the handler does not read the whole request
-		case 1:
-			nReads += r.Intn(3) // reads past the end
-		}
-		// interleave reads and writes at random
-		ri, wi := 0, 0
-		h.Actions = []tracer.VerifHAction{}
-		if r.Chance(1, 4) {
-			h.Actions = append(h.Actions, tracer.VerifHAction{Kind: "wh", Status: gen.Pick(r, []int{200, 200, 404, 500})})
-		}
-		for ri < nReads || wi < len(writes) {
-			switch {
-			case wi >= len(writes) || (ri < nReads && r.Chance(1, 2)):
-				h.Actions = append(h.Actions, tracer.VerifHAction{Kind: "read"})
-				ri++
-			default:
-				h.Actions = append(h.Actions, tracer.VerifHAction{Kind: "w", Data: writes[wi]})
-				wi++
-				if r.Chance(1, 6) {
-					h.Actions = append(h.Actions, tracer.VerifHAction{Kind: "flush"})
-				}
-			}
-			if r.Chance(1, 40) {
-				h.Actions = append(h.Actions, tracer.VerifHAction{Kind: "closeReq"})
-			}
-		}
-		if r.Chance(1, 3) {
-			h.Actions = append(h.Actions, tracer.VerifHAction{Kind: "set", Key: gen.Pick(r, []string{"Trailer:X-T", "Grpc-Status", "X-Late"}), Val: "v"})
-		}
-		if r.Chance(1, 12) {
-			at := r.Intn(len(h.Actions) + 1)
-			h.Actions = append(h.Actions[:at:at], append([]tracer.VerifHAction{{Kind: "panic"}}, h.Actions[at:]...)...)
-		}
-		h.Accept = -1
-		if r.Chance(1, 4) {
-			h.Accept = r.Intn(len(respBody) + 2)
-		}
+		rt, h := c14RandMiddleware(c)
 		c.Do("handler", h)
-		// client side
-		var rt c14RTIn
-		reqSide, reqBody = c14RandSide(c)
-		if r.Chance(1, 3) {
-			reqBody = reqBody[:r.Intn(len(reqBody)+1)]
-		}
-		rt.Req = reqSide
-		rt.Req.Reads = c14RandChunks(r, reqBody)
-		rt.Req.Ending = gen.Pick(r, []string{"eof", "eof", "eof", "eofdata", "err", "errdata"})
-		rt.Req.Post = []string{}
-		respSide, respBody = c14RandSide(c)
-		if r.Chance(1, 3) {
-			respBody = respBody[:r.Intn(len(respBody)+1)]
-		}
-		rt.Resp = respSide
-		rt.Resp.Reads = c14RandChunks(r, respBody)
-		rt.Resp.Ending = gen.Pick(r, c14Endings)
-		rt.Resp.Post = c14RandPost(r)
-		rt.Fail = r.Chance(1, 8)
-		rt.Status = gen.Pick(r, []int{200, 200, 200, 404, 503})
 		c.Do("rt", rt)
 	}
 	return nil
@@ -643,4 +568,87 @@ func c14RandSide(c *gen.Ctx) (c14Side, []byte) {
 		}
 	}
 	return c14Side{CT: in.CT, CE: in.CE, CCE: in.CCE, GE: in.GE}, body
+}
+
+// c14RandMiddleware builds one client-side and one server-side session at random.
+func c14RandMiddleware(c *gen.Ctx) (c14RTIn, c14HandlerIn) {
+	r := c.R
+	// server side
+	var h c14HandlerIn
+	reqSide, reqBody := c14RandSide(c)
+	if r.Chance(1, 2) {
+		reqBody = reqBody[:r.Intn(len(reqBody)+1)]
+	}
+	h.Req = reqSide
+	h.Req.Reads = c14RandChunks(r, reqBody)
+	h.Req.Ending = gen.Pick(r, []string{"eof", "eof", "eofdata", "err", "errdata"})
+	h.Req.Post = []string{}
+	respSide, respBody := c14RandSide(c)
+	if r.Chance(1, 3) {
+		respBody = respBody[:r.Intn(len(respBody)+1)]
+	}
+	h.Resp = respSide
+	h.Resp.Reads, h.Resp.Post = []string{}, []string{}
+	writes := c14RandChunks(r, respBody)
+	nReads := len(h.Req.Reads) + 1
+	switch r.Intn(4) {
+	case 0:
+		nReads = r.Intn(nReads + 1) // the handler does not read the whole request
+	case 1:
+		nReads += r.Intn(3) // reads past the end
+	}
+	// interleave reads and writes at random
+	ri, wi := 0, 0
+	h.Actions = []tracer.VerifHAction{}
+	if r.Chance(1, 4) {
+		h.Actions = append(h.Actions, tracer.VerifHAction{Kind: "wh", Status: gen.Pick(r, []int{200, 200, 404, 500})})
+	}
+	for ri < nReads || wi < len(writes) {
+		switch {
+		case wi >= len(writes) || (ri < nReads && r.Chance(1, 2)):
+			h.Actions = append(h.Actions, tracer.VerifHAction{Kind: "read"})
+			ri++
+		default:
+			h.Actions = append(h.Actions, tracer.VerifHAction{Kind: "w", Data: writes[wi]})
+			wi++
+			if r.Chance(1, 6) {
+				h.Actions = append(h.Actions, tracer.VerifHAction{Kind: "flush"})
+			}
+		}
+		if r.Chance(1, 40) {
+			h.Actions = append(h.Actions, tracer.VerifHAction{Kind: "closeReq"})
+		}
+	}
+	if r.Chance(1, 3) {
+		h.Actions = append(h.Actions, tracer.VerifHAction{Kind: "set", Key: gen.Pick(r, []string{"Trailer:X-T", "Grpc-Status", "X-Late"}), Val: "v"})
+	}
+	if r.Chance(1, 12) {
+		at := r.Intn(len(h.Actions) + 1)
+		h.Actions = append(h.Actions[:at:at], append([]tracer.VerifHAction{{Kind: "panic"}}, h.Actions[at:]...)...)
+	}
+	h.Accept = -1
+	if r.Chance(1, 4) {
+		h.Accept = r.Intn(len(respBody) + 2)
+	}
+	// client side
+	var rt c14RTIn
+	reqSide, reqBody = c14RandSide(c)
+	if r.Chance(1, 3) {
+		reqBody = reqBody[:r.Intn(len(reqBody)+1)]
+	}
+	rt.Req = reqSide
+	rt.Req.Reads = c14RandChunks(r, reqBody)
+	rt.Req.Ending = gen.Pick(r, []string{"eof", "eof", "eof", "eofdata", "err", "errdata"})
+	rt.Req.Post = []string{}
+	respSide, respBody = c14RandSide(c)
+	if r.Chance(1, 3) {
+		respBody = respBody[:r.Intn(len(respBody)+1)]
+	}
+	rt.Resp = respSide
+	rt.Resp.Reads = c14RandChunks(r, respBody)
+	rt.Resp.Ending = gen.Pick(r, c14Endings)
+	rt.Resp.Post = c14RandPost(r)
+	rt.Fail = r.Chance(1, 8)
+	rt.Status = gen.Pick(r, []int{200, 200, 200, 404, 503})
+	return rt, h
 }
